@@ -99,10 +99,25 @@ ADD8 = {
 }
 for k, v in ADD8.items():
     ADD[k] = ADD.get(k, "") + v
+# additions of the ninth round (DESIGN.md 9.12)
+ADD9 = {
+ 'C01': " Also contents that start with a file signature (byte order marks, gzip/zstd magic inside a plain file, #!, PK, ELF) x 4 continuations x {plain, gz, zst}.",
+ 'C03': " Also 10 near-match-all pattern spellings (.+ ..* .? ^.*$ ^ $ (.*) .{0,}) over all files of <=4 lines with empty and CR lines.",
+ 'C08': " The configuration files are also loaded for 7 (configuration key, login name) pairs that differ in letter case or not.",
+ 'C10': " Also the product {-1,0,1,MinInt64,100000}^3 of before/after/max on cat and grep commands that read a file.",
+ 'C11': " Also output files named like the clause's optional word (append, quoted/bare/upper case, with and without append mode) in 3 keyword cases x 2 clause orders.",
+ 'C12': " Also before in {0..100000} (11 values around 100, 1024, 4096, 65536) x after in {0,1025,100000} x max in {0,1} end to end over a 3000-line probe with two matching lines.",
+ 'C16': " The record pairs also contain messages whose first field only starts with a record word (REMOTEX, REMOTE_ADDR, SERVERS, ...) for the same server as genuine records.",
+ 'C18': " Also a fleet list of 400000 systematically named servers (400 listed twice) as file and comma list in listed order.",
+}
+for k, v in ADD9.items():
+    ADD[k] = ADD.get(k, "") + v
 for k, v in ADD.items():
     C[k]['text'] += v
     if '9.10' not in C[k]['ref']:
         C[k]['ref'] += ", 9.10, 9.11"
+    if k in ADD9 and '9.12' not in C[k]['ref']:
+        C[k]['ref'] += ", 9.12"
 
 PENDING = "check not built yet in this session (work in progress; see DESIGN.md section 4)"
 checks = []
